@@ -2,12 +2,14 @@
 open Drv_base
 open Drv_gen
 
-let () = register_backend "swift" (fun cfg pd ->
-  let c = { Model.sw_prefix = cfg_str cfg "prefix";
-            Model.sw_type_mappings = cfg_map cfg "type_mappings";
-            Model.sw_default_decorators = cfg_strs cfg "default_decorators";
-            Model.sw_default_generic_constraints = cfg_strs cfg "default_generic_constraints";
-            Model.sw_codablevoid_constraints = cfg_strs cfg "codablevoid_constraints";
-            Model.sw_no_version_header = cfg_bool cfg "no_version_header" true;
-            Model.sw_version = cfg_str cfg "version" } in
-  Model.sw_generate uc c pd)
+let sw_config_of cfg =
+  { Model.sw_prefix = cfg_str cfg "prefix";
+    Model.sw_type_mappings = cfg_map cfg "type_mappings";
+    Model.sw_default_decorators = cfg_strs cfg "default_decorators";
+    Model.sw_default_generic_constraints = cfg_strs cfg "default_generic_constraints";
+    Model.sw_codablevoid_constraints = cfg_strs cfg "codablevoid_constraints";
+    Model.sw_no_version_header = cfg_bool cfg "no_version_header" true;
+    Model.sw_version = cfg_str cfg "version" }
+
+let () = register_backend "swift" (fun cfg pd -> Model.sw_generate uc (sw_config_of cfg) pd)
+let () = register_decls "swift" (fun cfg pd -> Model.sw_file_decls uc (sw_config_of cfg) pd)
